@@ -143,10 +143,32 @@ namespace
         MC& operator=(MC&& o) noexcept { id = o.id; return *this; }
     };
     static_assert(std::is_nothrow_move_assignable<MC>::value && !std::is_nothrow_move_constructible<MC>::value, "MC: nothrow move assignment, throwing move construction");
-    constexpr int NT = 17;
+    // small, COPY construction cannot throw but move construction can: the heap again - what decides is the move, which any's
+    // own noexcept moves would run
+    struct CM : Tracked<27, 1, false, false, 8>
+    {
+        using Base = Tracked<27, 1, false, false, 8>;
+        explicit CM(uint64_t v) : Base(v) {}
+        CM(const CM& o) noexcept : Base(static_cast<const Base&>(o)) {}
+        CM(CM&& o) noexcept(false) : Base(static_cast<Base&&>(o)) {}
+        CM& operator=(const CM&) = default;
+        CM& operator=(CM&&) = default;
+    };
+    static_assert(std::is_nothrow_copy_constructible<CM>::value && !std::is_nothrow_move_constructible<CM>::value, "CM: nothrow copy, throwing move construction");
+    // small, in place, and its unary & hands out another object: any has to find its content without asking the content
+    struct AMPI
+    {
+        uint64_t id;
+        explicit AMPI(uint64_t v) : id(v) {}
+        static AMPI& decoy() { static AMPI d(0xdec0dec0); return d; }
+        AMPI* operator&() { return std::addressof(decoy()); }
+        const AMPI* operator&() const { return std::addressof(decoy()); }
+    };
+    static_assert(sizeof(AMPI) <= 2 * sizeof(void*) && std::is_nothrow_move_constructible<AMPI>::value, "AMPI must be stored in place");
+    constexpr int NT = 19;
     const char* const tnames[NT] = {"int", "S1_inplace", "S2_inplace", "LG_heap", "TMV_heap", "AL_heap", "string_heap", "shared_ptr_inplace", "reflike_inplace", "NK_heap",
-                                    "reflike_heap", "node_heap", "twopart_heap", "int_pointer_inplace", "nest_heap", "bytes20_heap", "MC_heap"};
-    inline bool is_tracked_type(int k) { return (k >= 1 && k <= 5) || k == 9 || k == 16; }
+                                    "reflike_heap", "node_heap", "twopart_heap", "int_pointer_inplace", "nest_heap", "bytes20_heap", "MC_heap", "CM_heap", "ampersand_inplace"};
+    inline bool is_tracked_type(int k) { return (k >= 1 && k <= 5) || k == 9 || k == 16 || k == 17; }
     static_assert(sizeof(RLH) > 2 * sizeof(void*) && sizeof(Node) > 2 * sizeof(void*) && sizeof(TwoPart) > 2 * sizeof(void*), "heap payloads must not fit the in-place buffer");
     inline int tag_of_type(int k) { return 10 + k; }
     static_assert(sizeof(RL) <= 2 * sizeof(void*) && std::is_nothrow_move_constructible<RL>::value, "RL must be stored in place");
@@ -186,6 +208,8 @@ namespace
                                     static uint64_t id(const B20& v) { uint64_t i = v.w[0] | (static_cast<uint64_t>(v.w[1]) << 32); return (v.w[2] == static_cast<uint32_t>(i * 3 + 1) && v.w[3] == static_cast<uint32_t>(~i) && v.w[4] == 0x5eedu) ? i : 999996; }
                                     static void set(B20& v, uint64_t id) { v.w[0] = static_cast<uint32_t>(id); v.w[1] = static_cast<uint32_t>(id >> 32); v.w[2] = static_cast<uint32_t>(id * 3 + 1); v.w[3] = static_cast<uint32_t>(~id); v.w[4] = 0x5eedu; } };
     template <> struct TypeOf<16> { using type = MC; static MC make(uint64_t id) { return MC(id); } static uint64_t id(const MC& v) { return v.id; } static void set(MC& v, uint64_t id) { v.id = id; } };
+    template <> struct TypeOf<17> { using type = CM; static CM make(uint64_t id) { return CM(id); } static uint64_t id(const CM& v) { return v.id; } static void set(CM& v, uint64_t id) { v.id = id; } };
+    template <> struct TypeOf<18> { using type = AMPI; static AMPI make(uint64_t id) { return AMPI(id); } static uint64_t id(const AMPI& v) { return v.id; } static void set(AMPI& v, uint64_t id) { v.id = id; } };
     template <> struct TypeOf<9> { using type = NK; static NK make(uint64_t id) { return NK(id); } static uint64_t id(const NK& v) { return v.id; } static void set(NK& v, uint64_t id) { v.id = id; } };
     template <> struct TypeOf<7> { using type = SP; static SP make(uint64_t id) { return std::make_shared<int>(static_cast<int>(id)); } static uint64_t id(const SP& v) { return v ? static_cast<uint64_t>(*v) : 0; } static void set(SP& v, uint64_t id) { v = std::make_shared<int>(static_cast<int>(id)); } };
 
@@ -209,7 +233,9 @@ namespace
         case 13: f(std::integral_constant<int, 13>()); break;
         case 14: f(std::integral_constant<int, 14>()); break;
         case 15: f(std::integral_constant<int, 15>()); break;
-        default: f(std::integral_constant<int, 16>()); break;
+        case 16: f(std::integral_constant<int, 16>()); break;
+        case 17: f(std::integral_constant<int, 17>()); break;
+        default: f(std::integral_constant<int, 18>()); break;
         }
     }
 
@@ -558,9 +584,9 @@ namespace
                         else { const T* p = xtl::any_cast<const T>(&ca); ok = p != nullptr; if (p) { got = TypeOf<KK>::id(*p); addr_ok = p == stored; } }
                         break;
                     case 1:
-                        if (qual == 0) { T& r = xtl::any_cast<T&>(a); ok = true; got = TypeOf<KK>::id(r); addr_ok = &r == stored; }
-                        else if (qual == 1) { const T& r = xtl::any_cast<const T&>(ca); ok = true; got = TypeOf<KK>::id(r); addr_ok = &r == stored; }
-                        else { const T& r = xtl::any_cast<const T&>(a); ok = true; got = TypeOf<KK>::id(r); addr_ok = &r == stored; }
+                        if (qual == 0) { T& r = xtl::any_cast<T&>(a); ok = true; got = TypeOf<KK>::id(r); addr_ok = std::addressof(r) == stored; }
+                        else if (qual == 1) { const T& r = xtl::any_cast<const T&>(ca); ok = true; got = TypeOf<KK>::id(r); addr_ok = std::addressof(r) == stored; }
+                        else { const T& r = xtl::any_cast<const T&>(a); ok = true; got = TypeOf<KK>::id(r); addr_ok = std::addressof(r) == stored; }
                         break;
                     case 2:
                         { Suspend quiet; if (qual == 0) { T v = xtl::any_cast<T>(a); ok = true; got = TypeOf<KK>::id(v); } else { T v = xtl::any_cast<T>(ca); ok = true; got = TypeOf<KK>::id(v); } }
